@@ -26,20 +26,32 @@ static int32_t val[MAXN];       // value of node i under the valuation sigma (Bo
 static bool isB[MAXN];          // node is a formula
 static bool badv[MAXN];         // value of the node left the range the harness computes exactly (such a node must never be RETURNED)
 static bool bad_ref, bad_sym, overflow, other_exc;
+// Storage that the real code works on is TYPED and static (defined in arithctor_rt.c with the generated struct types): CBMC keeps a
+// malloc'ed object as one byte array and rewrites all of it on every store, which makes symbolic execution 10-50x slower.
+extern "C" {
+extern ArithLogic ac_logic;                 // raw logic object: never constructed, only the fields the constructors read are filled
+extern FastRational ac_fr[STU_MAXN];        // numbers of the constant nodes
+}
+static_assert(sizeof(ArithLogic) <= 16384 && sizeof(FastRational) == 24 && STU_MAXN <= 64, "native replay storage in arithctor_rt.c too small");
+static PTRef ac_vbuf[40][8]; static int ac_nvbuf;     // buffers of minisat vec<PTRef> (fixed capacity 8)
+static int ac_ibuf[24][8]; static int ac_nibuf;       // buffers of minisat vec<int>
+static uint64_t ac_heap[12][32]; static unsigned ac_nheap;    // operator new (std::vector<Entry> of mkPlus): one 256-byte block per request, reset per run
 static int created, U, UA;      // U = nodes of the initial universe, UA = the arithmetic ones among them (0..UA-1)
 
 // a * b for |a| < 128, |b| < 2^20, written without a multiplier circuit (a full-width multiplier against the solver does not scale)
+// (branch-free: a branch on a symbolic value makes CBMC fork and merge its whole state)
 static int32_t smul(int32_t a, int32_t b, bool & bad) {
-    if (a <= -128 || a >= 128 || b <= -(1 << 20) || b >= (1 << 20)) { bad = true; return 0; }
-    uint32_t ua = a < 0 ? 0u - (uint32_t)a : (uint32_t)a, ub = (uint32_t)b, r = 0;
-    if (ua & 1) r += ub;
-    if (ua & 2) r += ub << 1;
-    if (ua & 4) r += ub << 2;
-    if (ua & 8) r += ub << 3;
-    if (ua & 16) r += ub << 4;
-    if (ua & 32) r += ub << 5;
-    if (ua & 64) r += ub << 6;
-    return (int32_t)(a < 0 ? 0u - r : r);
+    bad |= (a <= -128) | (a >= 128) | (b <= -(1 << 20)) | (b >= (1 << 20));
+    uint32_t neg = (uint32_t)(a < 0), m = 0u - neg;
+    uint32_t ua = ((uint32_t)a ^ m) + neg, ub = (uint32_t)b, r = 0;
+    r += ub & (0u - (ua & 1));
+    r += (ub << 1) & (0u - ((ua >> 1) & 1));
+    r += (ub << 2) & (0u - ((ua >> 2) & 1));
+    r += (ub << 3) & (0u - ((ua >> 3) & 1));
+    r += (ub << 4) & (0u - ((ua >> 4) & 1));
+    r += (ub << 5) & (0u - ((ua >> 5) & 1));
+    r += (ub << 6) & (0u - ((ua >> 6) & 1));
+    return (int32_t)((r ^ m) + neg);
 }
 // Pterm storage: one static row per node (header | id | sym | args[4]); unused argument slots hold a poison reference, so reading an
 // argument that does not exist and using it is reported by the accessors ("term reference outside the term table").
@@ -59,7 +71,7 @@ static PTRef newNode(Kind k, uint32_t sym, int nargs, PTRef const * a) {
     for (int i = 0; i < 4; i++) {
         uint32_t x = i < nargs ? a[i].x : POISON;
         pstore[id][3 + i] = x; sh_a[id][i] = x;
-        if (i < nargs && badv[x]) bad = true;
+        if (i < nargs) bad |= badv[x];
     }
     switch (k) {
     case K_PLUS: for (int i = 0; i < 4; i++) if (i < nargs) { if (isB[a[i].x]) bad_sym = true; v = (int32_t)((uint32_t)v + (uint32_t)val[a[i].x]); } break;
@@ -69,7 +81,7 @@ static PTRef newNode(Kind k, uint32_t sym, int nargs, PTRef const * a) {
     case K_NOT: if (nargs != 1 || !isB[a[0].x]) bad_sym = true; else v = !val[a[0].x]; b = true; break;
     default: break;   // leaves: value set by the caller
     }
-    if (v <= -(1 << 20) || v >= (1 << 20)) bad = true;
+    bad |= (v <= -(1 << 20)) | (v >= (1 << 20));
     val[id] = v; isB[id] = b; badv[id] = bad;
     return PTRef{(uint32_t)id};
 }
@@ -77,7 +89,7 @@ static PTRef newConst(int32_t v) {        // small integer constant in word repr
     PTRef r = newNode(K_CONST, SYM_CONST0 + nnodes, 0, nullptr);
     Node & n = nodes[r.x];
     n.cval = v; val[r.x] = v;
-    n.num = static_cast<FastRational *>(malloc(sizeof(FastRational)));
+    n.num = &ac_fr[r.x];
     n.num->state = State::WORD_VALID; n.num->num = v; n.num->den = 1; n.num->mpq = nullptr;
     return r;
 }
@@ -93,6 +105,16 @@ static bool ref_ok(PTRef r) { return r.x < (uint32_t)nnodes; }
 // ---------------------------------------------------------------- cut points (answered from the table)
 static bool boolSym(SymRef s) { return s.x == SYM_LEQ || (s.x >= SYM_TRUE && s.x <= SYM_EQ); }
 extern "C" {
+Pterm * stub_pterm(void *, PTRef r) {
+    VASSERT(r.x < (uint32_t)nnodes, "term reference outside the term table (undefined, poison or garbage PTRef dereferenced)");
+    VASSUME(r.x < (uint32_t)nnodes);
+    return reinterpret_cast<Pterm *>(pstore[r.x]);
+}
+FastRational const * stub_getNumConst(void *, PTRef r) {
+    VASSERT(r.x < (uint32_t)nnodes && nodes[r.x].kind == K_CONST, "getNumConst applied to a term that is not a numeric constant");
+    VASSUME(r.x < (uint32_t)nnodes && nodes[r.x].kind == K_CONST);
+    return &ac_fr[r.x];
+}
 SRef stub_getSortRefTerm(void *, PTRef t) { if (!ref_ok(t)) { bad_ref = true; return SRef{SORT_INT}; } return SRef{isB[t.x] ? SORT_BOOL : SORT_INT}; }
 SRef stub_getSortRefSym(void *, SymRef s) { return SRef{boolSym(s) ? SORT_BOOL : SORT_INT}; }
 SRef stub_getUniqueArgSort(void *, SymRef s) { return SRef{s.x == SYM_NOT ? SORT_BOOL : SORT_INT}; }
@@ -131,6 +153,50 @@ PTRef stub_mkFun(Logic *, SymRef s, vec<PTRef> && args) {
     created++;
     return newNode(k, s.x, n, a);
 }
+// minisat Map<PTRef, uint32_t, PTRefHash> (the local variable->index map of mkPlus) replaced by an 8-entry association list: the real one
+// allocates and destroys a 31-bucket hash table per call, which CBMC's symbolic execution cannot keep concrete. `table` points at the list.
+struct MapModel { uint32_t key[8]; uint32_t data[8]; };
+typedef Map<PTRef, uint32_t, PTRefHash> VarIdxMap;
+static MapModel ac_map[4]; static int ac_nmap;
+void stub_map_ctor(VarIdxMap * m) { m->table = reinterpret_cast<vec<VarIdxMap::Pair> *>(&ac_map[ac_nmap & 3]); ac_nmap++; m->cap = 8; m->size = 0; }
+void stub_map_dtor(VarIdxMap *) {}
+bool stub_map_has(VarIdxMap const * m, PTRef const & k) {
+    MapModel * t = reinterpret_cast<MapModel *>(m->table);
+    for (int i = 0; i < 8; i++) if (i < m->size && t->key[i] == k.x) return true;
+    return false;
+}
+void stub_map_insert(VarIdxMap * m, PTRef const & k, uint32_t const & d) {
+    MapModel * t = reinterpret_cast<MapModel *>(m->table);
+    if (m->size >= 8) { overflow = true; return; }
+    t->key[m->size] = k.x; t->data[m->size] = d; m->size++;
+}
+uint32_t & stub_map_index(VarIdxMap * m, PTRef const & k) {
+    MapModel * t = reinterpret_cast<MapModel *>(m->table);
+    int at = 0; bool found = false;
+    for (int i = 0; i < 8; i++) if (i < m->size && t->key[i] == k.x) { at = i; found = true; }
+    if (!found) bad_ref = true;      // precondition of Map::operator[]: the key exists
+    return t->data[at];
+}
+// minisat vec<T>::capacity replaced by one fixed-capacity buffer per vec (8 elements, never reallocated; a larger request is flagged),
+// operator new by bump allocation from a static pool, operator delete / free by no-ops: CBMC's malloc/realloc/free models record
+// allocated and freed objects nondeterministically, which makes every later pointer check symbolic
+#define VCAP 8
+void stub_cap_ptref(vec<PTRef> * v, int m) {
+    if (v->cap >= m) return;
+    if (m > VCAP || (v->data == nullptr && ac_nvbuf >= 40)) { overflow = true; return; }
+    if (v->data == nullptr) v->data = ac_vbuf[ac_nvbuf++];
+    v->cap = VCAP;
+}
+void stub_cap_int(vec<int> * v, int m) {
+    if (v->cap >= m) return;
+    if (m > VCAP || (v->data == nullptr && ac_nibuf >= 24)) { overflow = true; return; }
+    if (v->data == nullptr) v->data = ac_ibuf[ac_nibuf++];
+    v->cap = VCAP;
+}
+void * stub_opnew(unsigned long n) {
+    if (n > 256 || ac_nheap >= 12) { overflow = true; ac_nheap = 0; }
+    return ac_heap[ac_nheap++];
+}
 bool stub_isUF(void *, PTRef) { return false; }
 void stub_termSort(ArithLogic * l, vec<PTRef> & v) { l->ArithLogic::termSort(v); }            // virtual slot -> the real ArithLogic::termSort
 #ifdef ARITH_CMP
@@ -143,8 +209,6 @@ template <class F> static int vslot(F pmf) {   // vtable slot of a virtual membe
     return (int)((u.r.ptr - 1) / 8);
 }
 static void * fake_vt[128];
-union RawLogic { ArithLogic l; RawLogic() {} ~RawLogic() {} };
-static RawLogic rawl;
 
 // ---------------------------------------------------------------- the universe
 // Arithmetic nodes (UA = 14), every one a term the real constructors build (linear normal forms):
@@ -160,7 +224,7 @@ static RawLogic rawl;
 //   A4 value(node) = operator(value(children)); x, y arbitrary in [-7,7]
 enum : uint32_t { N_ZERO = 0, N_ONE, N_MONE, N_X, N_Y, N_2, N_M3, N_2X, N_NEGY, N_XP1, N_YP1, N_XPY, N_S3, N_2MY, N_ARITH };
 static void build_universe() {
-    init_logic(&rawl.l);
+    init_logic(&ac_logic);
     bad_ref = bad_sym = overflow = other_exc = false; created = 0;
     newConst(0); newConst(1); newConst(-1);
     newVar(0, -7, 7); newVar(1, -7, 7);
@@ -197,7 +261,7 @@ static void build_universe() {
     *reinterpret_cast<void ***>(L) = fake_vt;
     U = nnodes;
 }
-static void reset_run() { nnodes = U; bad_ref = bad_sym = overflow = other_exc = false; created = 0; }
+static void reset_run() { nnodes = U; bad_ref = bad_sym = overflow = other_exc = false; created = 0; ac_nvbuf = ac_nibuf = 0; ac_nheap = 0; }
 static bool isConstNode(PTRef a) { return nodes[a.x].kind == K_CONST; }
 static bool isSumNode(PTRef a) { return nodes[a.x].kind == K_PLUS; }
 
@@ -239,27 +303,41 @@ template <int N> static void times_tuple(PTRef const * a) {
         if (ref_ok(r) && isConstNode(r) && (int)r.x >= U) { VWITNESS("constants-folded-to-new-constant"); }
     }
 }
-// all pairs (first factor in [LO,HI), second factor any arithmetic node)
-template <int LO, int HI> static void times2() {
+// ---------------------------------------------------------------- argument sets and entries
+// ALL: every arithmetic node (thorough tier).  Quick tier: QA = one node of every kind -- 0, -1, a constant, a variable, a product over
+// the other variable, a 2-argument sum, the 3-argument sum with products and a constant; QB = QA without 0 and -1.
+static const uint32_t ALL[N_ARITH] = {0, 1, 2, 3, 4, 5, 6, 7, 8, 9, 10, 11, 12, 13};
+#define NQA 7
+#define NQB 5
+static const uint32_t QA[NQA] = {N_ZERO, N_MONE, N_2, N_X, N_NEGY, N_XP1, N_S3};
+static const uint32_t * const QB = QA + 2;
+#define ROWS(lo, hi) (ALL + (lo)), ((hi) - (lo))
+
+static void times2(uint32_t const * l0, int n0, uint32_t const * l1, int n1) {
     build_universe();
-    for (int i = LO; i < HI; i++) for (int j = 0; j < N_ARITH; j++) { PTRef a[2] = {PTRef{(uint32_t)i}, PTRef{(uint32_t)j}}; times_tuple<2>(a); }
+    for (int i = 0; i < n0; i++) for (int j = 0; j < n1; j++) { PTRef a[2] = {PTRef{l0[i]}, PTRef{l1[j]}}; times_tuple<2>(a); }
 }
-extern "C" void h_mkTimes2_a() { times2<0, 5>(); }
-extern "C" void h_mkTimes2_b() { times2<5, 10>(); }
-extern "C" void h_mkTimes2_c() { times2<10, 14>(); }
-// all triples with a given first factor
-template <int A0, int LO, int HI> static void times3() {
+static void times3(uint32_t a0, uint32_t const * l1, int n1, uint32_t const * l2, int n2) {
     build_universe();
-    for (int i = LO; i < HI; i++) for (int j = 0; j < N_ARITH; j++) { PTRef a[3] = {PTRef{(uint32_t)A0}, PTRef{(uint32_t)i}, PTRef{(uint32_t)j}}; times_tuple<3>(a); }
+    for (int i = 0; i < n1; i++) for (int j = 0; j < n2; j++) { PTRef a[3] = {PTRef{a0}, PTRef{l1[i]}, PTRef{l2[j]}}; times_tuple<3>(a); }
 }
-#define T3(k) extern "C" void h_mkTimes3_##k##_a() { times3<k, 0, 7>(); } extern "C" void h_mkTimes3_##k##_b() { times3<k, 7, 14>(); }
-T3(0) T3(1) T3(2) T3(3) T3(4) T3(5) T3(6) T3(7) T3(8) T3(9) T3(10) T3(11) T3(12) T3(13)
-// the defect repaired by ce45400 as a single tuple: (* 2 (+ x 1) (+ y 1)), in every argument order
+// quick tier
+extern "C" void h_mkTimes2_q1() { times2(QA, 4, QA, NQA); }
+extern "C" void h_mkTimes2_q2() { times2(QA + 4, 3, QA, NQA); }
+extern "C" void h_mkTimes3_q_const() { times3(N_2, QB, NQB, QB, NQB); }
+extern "C" void h_mkTimes3_q_sum() { times3(N_XP1, QB, NQB, QB, NQB); }
+// the defect repaired by ce45400 as single tuples: (* 2 (+ x 1) (+ y 1)) in every argument order
 extern "C" void h_mkTimes3_two_sums() {
     build_universe();
     static const uint32_t p[6][3] = {{N_2, N_XP1, N_YP1}, {N_2, N_YP1, N_XP1}, {N_XP1, N_2, N_YP1}, {N_XP1, N_YP1, N_2}, {N_YP1, N_XP1, N_2}, {N_YP1, N_2, N_XP1}};
     for (int k = 0; k < 6; k++) { PTRef a[3] = {PTRef{p[k][0]}, PTRef{p[k][1]}, PTRef{p[k][2]}}; times_tuple<3>(a); }
 }
+// thorough tier: all pairs, all triples
+extern "C" void h_mkTimes2_a() { times2(ROWS(0, 5), ALL, N_ARITH); }
+extern "C" void h_mkTimes2_b() { times2(ROWS(5, 10), ALL, N_ARITH); }
+extern "C" void h_mkTimes2_c() { times2(ROWS(10, 14), ALL, N_ARITH); }
+#define T3(k) extern "C" void h_mkTimes3_##k##_a() { times3(k, ROWS(0, 7), ALL, N_ARITH); } extern "C" void h_mkTimes3_##k##_b() { times3(k, ROWS(7, 14), ALL, N_ARITH); }
+T3(0) T3(1) T3(2) T3(3) T3(4) T3(5) T3(6) T3(7) T3(8) T3(9) T3(10) T3(11) T3(12) T3(13)
 
 enum Op { O_PLUS, O_MINUS, O_LEQ, O_GEQ, O_LT, O_GT, O_EQ };
 template <int N> static void sum_tuple(Op op, PTRef const * a) {
@@ -278,24 +356,28 @@ template <int N> static void sum_tuple(Op op, PTRef const * a) {
         if (ref_ok(r) && isSumNode(r) && (int)r.x >= U) { VWITNESS("new-sum"); }
     }
 }
-extern "C" void h_mkPlus2() {
+static void sums2(Op op, uint32_t const * l0, int n0, uint32_t const * l1, int n1) {
     build_universe();
-    for (int i = 0; i < N_ARITH; i++) for (int j = 0; j < N_ARITH; j++) { PTRef a[2] = {PTRef{(uint32_t)i}, PTRef{(uint32_t)j}}; sum_tuple<2>(O_PLUS, a); }
+    for (int i = 0; i < n0; i++) for (int j = 0; j < n1; j++) { PTRef a[2] = {PTRef{l0[i]}, PTRef{l1[j]}}; sum_tuple<2>(op, a); }
 }
-extern "C" void h_mkMinus2() {
+static void plus3(uint32_t a0, uint32_t const * l1, int n1, uint32_t const * l2, int n2) {
     build_universe();
-    for (int i = 0; i < N_ARITH; i++) for (int j = 0; j < N_ARITH; j++) { PTRef a[2] = {PTRef{(uint32_t)i}, PTRef{(uint32_t)j}}; sum_tuple<2>(O_MINUS, a); }
+    for (int i = 0; i < n1; i++) for (int j = 0; j < n2; j++) { PTRef a[3] = {PTRef{a0}, PTRef{l1[i]}, PTRef{l2[j]}}; sum_tuple<3>(O_PLUS, a); }
 }
 extern "C" void h_mkNeg() {
     build_universe();
     for (int i = 0; i < N_ARITH; i++) { PTRef a[1] = {PTRef{(uint32_t)i}}; sum_tuple<1>(O_MINUS, a); }
 }
-template <int A0> static void plus3() {
-    build_universe();
-    for (int i = 0; i < N_ARITH; i++) for (int j = 0; j < N_ARITH; j++) { PTRef a[3] = {PTRef{(uint32_t)A0}, PTRef{(uint32_t)i}, PTRef{(uint32_t)j}}; sum_tuple<3>(O_PLUS, a); }
-}
-#define P3(k) extern "C" void h_mkPlus3_##k() { plus3<k>(); }
-P3(0) P3(1) P3(2) P3(3) P3(4) P3(5) P3(6) P3(7) P3(8) P3(9) P3(10) P3(11) P3(12) P3(13)
+extern "C" void h_dbg_plus() { build_universe(); PTRef a[2] = {PTRef{N_X}, PTRef{N_X}}; sum_tuple<2>(O_PLUS, a); }
+extern "C" void h_mkPlus2_q1() { sums2(O_PLUS, QA, 4, QA, NQA); }
+extern "C" void h_mkPlus2_q2() { sums2(O_PLUS, QA + 4, 3, QA, NQA); }
+extern "C" void h_mkMinus2_q() { sums2(O_MINUS, QB, NQB, QB, NQB); }
+extern "C" void h_mkPlus2_a() { sums2(O_PLUS, ROWS(0, 7), ALL, N_ARITH); }
+extern "C" void h_mkPlus2_b() { sums2(O_PLUS, ROWS(7, 14), ALL, N_ARITH); }
+extern "C" void h_mkMinus2_a() { sums2(O_MINUS, ROWS(0, 7), ALL, N_ARITH); }
+extern "C" void h_mkMinus2_b() { sums2(O_MINUS, ROWS(7, 14), ALL, N_ARITH); }
+#define P3(k) extern "C" void h_mkPlus3_##k##_a() { plus3(k, ROWS(0, 7), ALL, N_ARITH); } extern "C" void h_mkPlus3_##k##_b() { plus3(k, ROWS(7, 14), ALL, N_ARITH); }
+P3(3) P3(7) P3(9) P3(12)
 
 #ifdef ARITH_CMP
 static void cmp_pair(Op op, PTRef a, PTRef b) {
@@ -313,18 +395,19 @@ static void cmp_pair(Op op, PTRef a, PTRef b) {
         if (ref_ok(r) && (int)r.x < U && (int)r.x >= UA) { VWITNESS("decided-to-true-or-false"); }
     }
 }
-template <int LO, int HI> static void cmp_all(Op op) {
+static void cmps(Op op, uint32_t const * l0, int n0, uint32_t const * l1, int n1) {
     build_universe();
-    for (int i = LO; i < HI; i++) for (int j = 0; j < N_ARITH; j++) cmp_pair(op, PTRef{(uint32_t)i}, PTRef{(uint32_t)j});
+    for (int i = 0; i < n0; i++) for (int j = 0; j < n1; j++) cmp_pair(op, PTRef{l0[i]}, PTRef{l1[j]});
 }
-extern "C" void h_mkLeq_a() { cmp_all<0, 7>(O_LEQ); }
-extern "C" void h_mkLeq_b() { cmp_all<7, 14>(O_LEQ); }
-extern "C" void h_mkGeq_a() { cmp_all<0, 7>(O_GEQ); }
-extern "C" void h_mkGeq_b() { cmp_all<7, 14>(O_GEQ); }
-extern "C" void h_mkLt_a() { cmp_all<0, 7>(O_LT); }
-extern "C" void h_mkLt_b() { cmp_all<7, 14>(O_LT); }
-extern "C" void h_mkGt_a() { cmp_all<0, 7>(O_GT); }
-extern "C" void h_mkGt_b() { cmp_all<7, 14>(O_GT); }
-extern "C" void h_mkEq_a() { cmp_all<0, 7>(O_EQ); }
-extern "C" void h_mkEq_b() { cmp_all<7, 14>(O_EQ); }
+extern "C" void h_mkLeq_q1() { cmps(O_LEQ, QA, 4, QA, NQA); }
+extern "C" void h_mkLeq_q2() { cmps(O_LEQ, QA + 4, 3, QA, NQA); }
+extern "C" void h_mkEq_q() { cmps(O_EQ, QB, NQB, QB, NQB); }
+// mkBinaryGeq(a,b) = mkBinaryLeq(b,a), mkBinaryLt = not mkBinaryGeq, mkBinaryGt = not mkBinaryLeq: a variable and a sum against everything in QB
+extern "C" void h_mkGeqLtGt_q() {
+    static const uint32_t two[2] = {N_X, N_XP1};
+    build_universe();
+    for (int i = 0; i < 2; i++) for (int j = 0; j < NQB; j++) { cmp_pair(O_GEQ, PTRef{two[i]}, PTRef{QB[j]}); cmp_pair(O_LT, PTRef{two[i]}, PTRef{QB[j]}); cmp_pair(O_GT, PTRef{two[i]}, PTRef{QB[j]}); }
+}
+#define CMP2(name, op) extern "C" void h_##name##_a() { cmps(op, ROWS(0, 7), ALL, N_ARITH); } extern "C" void h_##name##_b() { cmps(op, ROWS(7, 14), ALL, N_ARITH); }
+CMP2(mkLeq, O_LEQ) CMP2(mkGeq, O_GEQ) CMP2(mkLt, O_LT) CMP2(mkGt, O_GT) CMP2(mkEq, O_EQ)
 #endif
